@@ -40,6 +40,10 @@ def scenario_case(sseed: int, scen: str, k: Optional[int], kind: str) -> Dict[st
            "suspend_p": rng.choice([0.0, 0.0, 0.2]) if not scen.startswith("auto-") else rng.choice([0.0, 0.5, 1.0]),
            "suspend_max": 0.4, "lossp": rng.choice([0.1, 0.25]),
            "inject": {"k": k, "kind": kind}}
+    if scen in ("connect", "lossy-connect"):
+        # hold the client's handler in the deliveries that mark the transient states (SPA_READY, LOCATED_SPAS), so that injection points
+        # fall inside them
+        cfg["suspend_events"] = [[], ["CONNECTION_SPA_COMPLETE"], ["LOCATING_FINISHED"], ["LOCATING_FINISHED", "CONNECTION_STARTED", "CONNECTION_SPA_COMPLETE"]][sseed % 4]
     return {"property": PROP, "world": "A", "seed": sseed, "cfg": cfg, "plan": []}
 
 
@@ -169,9 +173,10 @@ async def scenario(world: WorldA) -> None:
         if scen == "connect":
             await asyncio.sleep(1.0)
         elif scen == "ping-missed":
-            world.net.healed = False
-            world.net.blackouts.append((world.now(), 1e9, "both"))
-            await wait_state(lambda: man.spa_state == GeckoSpaState.ERROR_PING_MISSED, 200)
+            # only the pings go unanswered (under a total blackout some other request exhausts its retries first and the manager ends
+            # in ERROR_NEEDS_ATTENTION, which the needs-attention scenario covers)
+            model.silent_verbs.add("GeckoPingProtocolHandler")
+            await wait_state(lambda: man.spa_state == GeckoSpaState.ERROR_PING_MISSED, 400)
             await asyncio.sleep(3.0)
         elif scen == "rf-fault":
             model.do_rferr("true")
@@ -199,8 +204,7 @@ async def scenario(world: WorldA) -> None:
         elif scen.startswith("auto-reset"):
             errs = (GeckoSpaState.ERROR_PING_MISSED, GeckoSpaState.ERROR_RF_FAULT, GeckoSpaState.ERROR_NEEDS_ATTENTION)
             if scen == "auto-reset-ping":
-                world.net.healed = False
-                world.net.blackouts.append((world.now(), 1e9, "both"))
+                model.silent_verbs.add("GeckoPingProtocolHandler")
             elif scen == "auto-reset-rf":
                 model.do_rferr("true")
             else:
